@@ -213,4 +213,9 @@ BUILTIN_EXC = {
     "NameError": ["Exception"],
     "RecursionError": ["RuntimeError"],
     "UnicodeDecodeError": ["ValueError"],
+    "Warning": ["Exception"],
+    "RuntimeWarning": ["Warning"],
+    "UserWarning": ["Warning"],
+    "DeprecationWarning": ["Warning"],
+    "FutureWarning": ["Warning"],
 }
